@@ -53,6 +53,7 @@ static rational p_rat(const std::string &s)
 }
 // "c=1/2 0:1/1 3:-2/3"
 static std::function<long(size_t)> g_slack_of; // request index -> variable of its assertion (or -1)
+static std::vector<var> g_varlins;             // results of the varlin commands: token "z<i>" refers to the i-th
 static lin p_lin(const std::vector<std::string> &tk, size_t from, size_t to)
 {
     lin l;
@@ -61,6 +62,13 @@ static lin p_lin(const std::vector<std::string> &tk, size_t from, size_t to)
         const std::string &t = tk[i];
         if (t.rfind("c=", 0) == 0)
             l.known_term = p_rat(t.substr(2));
+        else if (t[0] == 'z')
+        {
+            auto p = t.find(':');
+            const size_t i = std::stoul(t.substr(1, p - 1));
+            if (i < g_varlins.size() && !l.vars.count(g_varlins[i]))
+                l.vars.emplace(g_varlins[i], p_rat(t.substr(p + 1)));
+        }
         else if (t[0] == 's')
         {
             auto p = t.find(':');
@@ -269,6 +277,7 @@ int main(int argc, char **argv)
                 std::cout << "C conflict " << cl_str(c) << "\n";
         };
         lits.clear();
+        g_varlins.clear();
         dead = false;
     };
     reset();
@@ -330,6 +339,7 @@ int main(int argc, char **argv)
             std::cout << "E newvarlin " << lins(l) << "\n";
             const size_t n0 = th->vals.size();
             var v = th->new_var(l);
+            g_varlins.push_back(v);
             defs_since(*th, n0);
             std::cout << "R var " << v << "\nS " << dump(*th) << "\n";
         }
@@ -424,7 +434,7 @@ int main(int argc, char **argv)
         }
         else if (cmd == "setlb" || cmd == "setub")
         { // setlb v n/d,n/d : the public set_lb / set_ub (what executor.cpp calls) with the TRUE literal as reason, at root level
-            const var v = std::stoul(tk[1]);
+            const var v = tk[1][0] == 'z' ? g_varlins.at(std::stoul(tk[1].substr(1))) : std::stoul(tk[1]);
             auto p = tk[2].find(',');
             const inf_rational val(p_rat(tk[2].substr(0, p)), p_rat(tk[2].substr(p + 1)));
             if (!sat->root_level())
